@@ -244,7 +244,7 @@ PROPS["C17"] = {
     "floor": {"obligations": 32},
     "trusted_base": [
         "mangling model: `mangle`/`unmangle` uninterpreted with unmangle(mangle(p)) == p and mangle([s]) == s ASSUMED (a `$` inside a user identifier would break it: that is property C16's concern); helpers vx_mangle / vx_mangle2 / extract_path_from_mangled / vx_split_mangled stand for the `as_str()/join(\"$\")/split('$')/format!/to_symbol` string code",
-        "ASSUMED contracts: is_locally_bound (iter().rev().any(..)), vx_find_relative (the (1..=n).rev().map(..).find(..) chain of convert_var), vx_is_op_intrinsic (slice pattern + string tests for the reserved operator namespace)",
+        "is_locally_bound is PROVED (rule N18 turns `iter().rev().any(..)` into the reverse index loop it denotes); ASSUMED contracts: vx_find_relative (the (1..=n).rev().map(..).find(..) chain of convert_var), vx_is_op_intrinsic (slice pattern + string tests for the reserved operator namespace)",
         "derived PartialEq/Eq/Hash on Symbol(usize): structural, lawful hash key; Location / ExprNodeId opaque; `Expr` modelled by its `Var` variant with `var_of(into_id(Var(s))) == s`",
         "unit resolve_walk: the Let / LetRec / Lambda arms of convert_expr (rule X4; `OPT.map(|t| ..)` with a captured `&mut` desugared by N16 into a match); `Expr` modelled by these three variants, Pattern opaque with an uninterpreted set of bound names; push_scope / pop_scope / bind_local / bind_pattern_locals as scope-stack transformers (ASSUMED: 3-line functions over Vec<HashSet>); find_pattern_module_context / module_context_map.get as uninterpreted lookups; ASSUMED induction hypothesis + ghost call record for the recursive convert_expr",
         "unit use_tables, rule X4 (match arm re-headed as a function: pattern bindings and free variables become parameters, `continue` -> `return None` justified by the literal `if let Some(stmts) = stmts { result.extend(stmts); }` after the match, checked on every run); in the fn arm the statements building the function type and the lambda are replaced by opaque values; `Statement` modelled by its LetRec variant; is_reserved_type_param_name uninterpreted",
